@@ -203,6 +203,11 @@ func c18Tags(c *core.Ctx, lo, hi int) {
 		for k := 3; k <= 28; k++ {
 			idxs = append(idxs, 1<<uint(k)-1, 1<<uint(k), 1<<uint(k)+1)
 		}
+		// and up to the largest index a 64-bit tag can carry (ten-byte tags with the top bit set)
+		for k := 29; k <= 60; k++ {
+			idxs = append(idxs, 1<<uint(k)-1, 1<<uint(k), 1<<uint(k)+12345)
+		}
+		idxs = append(idxs, 1<<61-1)
 	}
 	// beyond the dense range: every 61st and every 8191st index, so that the inside of every tag
 	// length class is visited, not only its edges
